@@ -731,3 +731,27 @@ Definition window_decision (va vb : option tspec) (off pnow now : Z) : Z :=
   | _, _ => 2
   end.
 
+(* ------------------------------------------------------------------------------------------ *)
+(* misc.OptionsParser._add_option as used by SSHAllowedSignersEntry: the NAME of an option (a bare
+   flag or the part before '=') is lower-cased before it is looked up; values are kept as written.
+   (ASCII letters; the four names sshsig.py acts on.) *)
+Definition ascii_lower (c : Z) : Z := if (65 <=? c) && (c <=? 90) then c + 32 else c.
+
+Inductive as_opt := OCertAuthority | ONamespaces | OValidAfter | OValidBefore | OOther.
+
+Definition N_cert_authority : bytes := [99;101;114;116;45;97;117;116;104;111;114;105;116;121].
+Definition N_namespaces : bytes := [110;97;109;101;115;112;97;99;101;115].
+Definition N_valid_after : bytes := [118;97;108;105;100;45;97;102;116;101;114].
+Definition N_valid_before : bytes := [118;97;108;105;100;45;98;101;102;111;114;101].
+
+Definition as_opt_kind (written : list Z) : as_opt :=
+  let n := map ascii_lower written in
+  if zlist_eqb n N_cert_authority then OCertAuthority
+  else if zlist_eqb n N_namespaces then ONamespaces
+  else if zlist_eqb n N_valid_after then OValidAfter
+  else if zlist_eqb n N_valid_before then OValidBefore
+  else OOther.
+
+Definition as_opt_code (k : as_opt) : Z :=
+  match k with OCertAuthority => 0 | ONamespaces => 1 | OValidAfter => 2 | OValidBefore => 3 | OOther => 4 end.
+
